@@ -1,4 +1,7 @@
-import Ledger.Driver.Core
+import Ledger.Driver.E2eMulti
 
-/-! `ldriver_e2e`: correspondence driver for the E2e area (core-only). -/
-def main : IO Unit := Ledger.Driver.runDriver []
+/-! `ldriver_e2e`: correspondence driver of the end-to-end leg (real SQL store over the MODELLED
+    Postgres, LeanPG). Core-only. builder-ctrl's handlers are reused unchanged for the case shapes
+    that are its own (`ctrlhist`, `ctrlfault`, `ctrlimport`). -/
+def main : IO Unit := Ledger.Driver.runDriver
+  (Ledger.Driver.Ctrl.handlers ++ Ledger.Driver.E2e.handlers)
